@@ -167,8 +167,10 @@ static int ref_parse(const uint8_t *t, int n, int *exp, int *m, int *flags, int 
 		if (e == n) return 0;			/* unterminated line */
 		for (int k = i; k < e; k++) if (t[k] == ':') { c = k; break; }
 		if (c >= 0) {
-			if (c == i) return 0;
-			for (int k = i; k < c; k++) if (!is_hex(t[k])) return 0;
+			int a0 = i;
+			while (a0 < c && is_ws(t[a0])) { a0++; fl |= TF_WS; }	/* an indented address: white space is arbitrary */
+			if (c == a0) return 0;
+			for (int k = a0; k < c; k++) if (!is_hex(t[k])) return 0;
 			i = c + 1; fl |= TF_ADDR;
 			if (plain_pairs) fl |= TF_MIXED;
 		}
@@ -675,6 +677,20 @@ static int part_b(void)
 					b_run(&c, &r);
 					vx_count("b_texts_with_cr_vt_ff_separators", 1);
 				}
+	}
+	/* address prefixes that are indented, on the first and on later lines, after blank lines */
+	{
+		static const char *ifmt[] = { " 10: %s\n", "\t0fA0:%s %s\n", "%s\n 10: %s\n", "%s\n\t0fA0: %s\n", "10: %s\n  20: %s\n", "%s\n\n 10: %s\n",
+					      "10: %s\n \t 20:%s\n", " 10: %s\n 20: %s\n", "%s\n \n 10: 0x%s\n" };
+		static const char *iv[] = { "0a", "F9", "73" };
+		int k = 0;
+		for (unsigned f = 0; f < sizeof(ifmt) / sizeof(ifmt[0]); f++)
+			for (int a = 0; a < 3; a++) for (int b = 0; b < 3; b++, k++) {
+				if (!vx_mine((uint64_t)k)) continue;
+				c.n = sprintf((char *)c.text, ifmt[f], iv[a], iv[b]);
+				b_run(&c, &r);
+				vx_count("b_texts_with_indented_address", 1);
+			}
 	}
 	/* all single lines and all ordered pairs of lines from the pool */
 	for (int i = 0; i < nlines_pool; i++) {
